@@ -163,7 +163,7 @@ fn parse_allocation_status(
         value
             .as_str()
             .ok_or_else(|| anyhow::anyhow!("Missing time key {} in PBS", key))
-            .and_then(|v| Ok(local_to_system_time(parse_pbs_datetime(v)?)))
+            .and_then(|v| local_to_system_time(parse_pbs_datetime(v)?))
     };
 
     let status = match state {
